@@ -137,6 +137,42 @@ theorem query_answers : C11_query_full := by
     rw [query_answers_empty_cursor wt lim 1 (by omega)]
     intro h; cases h
 
+/-! ### the RPC path -/
+
+/-- the two Query loops as the source has them now -/
+def backendShape : LoopShape :=
+  ⟨Generated.C11.backendLoopShape.1, Generated.C11.backendLoopShape.2.1, Generated.C11.backendLoopShape.2.2, false⟩
+def rpcShape : LoopShape :=
+  ⟨Generated.C11.rpcLoopShape.1, Generated.C11.rpcLoopShape.2.1, Generated.C11.rpcLoopShape.2.2,
+   Generated.C11.rpcEarlyEmptyForZeroLimit⟩
+
+/-- **The RPC server's Query is the backend's Query** as far as reading and waiting go: for every cursor, wait timeout,
+limit and cursor state, `rpc.ServerQuerier.query` (which differs in the shape read from the source only by answering
+empty before it creates a cursor when `lim == 0 && WaitTimeout <= 0`) returns what `backend.Querier.Query` returns.
+Everything proved about `queryLoop` — it answers within the fuel bound, it re-reads after a wake-up, it waits again with a
+fresh timeout after a wake-up that brought nothing selected — therefore holds for both paths. -/
+theorem rpc_query_equals_backend_query {σ : Type} (c : Cur σ) (wt lim fuel : Nat) (s : σ) (hf : 0 < fuel) :
+    queryCall rpcShape c wt lim fuel s = queryCall backendShape c wt lim fuel s := by
+  have h1 : rpcShape = ⟨true, true, true, true⟩ := by decide
+  have h2 : backendShape = ⟨true, true, true, false⟩ := by decide
+  rw [h1, h2]
+  unfold queryCall
+  by_cases h : lim = 0 ∧ wt = 0
+  · obtain ⟨hl, hw⟩ := h
+    subst hl; subst hw
+    cases fuel with
+    | zero => omega
+    | succ f => simp [queryLoop]
+  · have : (lim == 0 && wt == 0) = false := by
+      cases hl : (lim == 0) <;> cases hw : (wt == 0) <;> simp_all
+    simp [this]
+
+/-- both calls are the `queryLoop` of the theorems above -/
+theorem backend_query_is_queryLoop {σ : Type} (c : Cur σ) (wt lim fuel : Nat) (s : σ) :
+    queryCall backendShape c wt lim fuel s = queryLoop c wt lim fuel lim s [] := by
+  have h2 : backendShape = ⟨true, true, true, false⟩ := by decide
+  rw [h2]; simp [queryCall]
+
 /-! ### non-vacuity and the behaviours the harness measures, as kernel-evaluated runs -/
 
 /-- a write racing with the reader going to sleep — append and flush between the reader's EOF (position 3) and its
@@ -161,6 +197,8 @@ example : ((run (init 2 0) [.start 0 0, .start 1 0, .inc 0, .inc 1, .lockCheck 0
 /-- the loop re-reads after a wake-up and returns the event; a wake-up that brings nothing selected waits again with a
 fresh timeout and then returns empty -/
 example : queryLoop scriptCur 5 10 10 10 ([], [some [7]]) [] = .ok [7] := by decide
+example : queryCall rpcShape scriptCur 1 10 10 ([], [some [], some [7]]) = .ok [7] := by decide
+example : queryCall rpcShape scriptCur 0 0 10 ([1], []) = .ok [] ∧ queryCall backendShape scriptCur 0 0 10 ([1], []) = .ok [] := by decide
 example : queryLoop scriptCur 5 10 10 10 ([], [some [], none]) [] = .ok [] := by decide
 example : queryLoop scriptCur 5 10 10 10 ([1, 2], [some [3]]) [] = .ok [1, 2] := by decide
 example : queryLoop emptyCurNow 1 10 40 10 () [] = .ok [] := by decide
